@@ -160,6 +160,7 @@ func cmdCheck(args []string) {
 		timeout = 60
 		coverTimeout = 10
 		thoroughMode = true
+		os.Setenv("OWVC_THOROUGH", "1") // bounded companions explore denser grids
 	}
 	// self-test runs (see selfTest): another source tree, scratch output, no evidence file
 	selftestRun := os.Getenv("OWVC_SELFTEST_REPO") != ""
@@ -727,7 +728,13 @@ func selfTest(id string) map[string]interface{} {
 				return
 			}
 			cmd := exec.Command(self, "check", id, "--tier", "quick")
-			cmd.Env = append(os.Environ(), "OWVC_SELFTEST_REPO="+tree, "OWVC_SELFTEST_WORK="+filepath.Join(scratch, "work"), "VERIF_TIER=quick")
+			var env []string
+			for _, kv := range os.Environ() {
+				if !strings.HasPrefix(kv, "OWVC_THOROUGH=") {
+					env = append(env, kv)
+				}
+			}
+			cmd.Env = append(env, "OWVC_SELFTEST_REPO="+tree, "OWVC_SELFTEST_WORK="+filepath.Join(scratch, "work"), "VERIF_TIER=quick")
 			o, _ := cmd.CombinedOutput()
 			n := strings.Count(string(o), "\nVIOLATION ") + strings.Count(string(o), "VIOLATION property=")/1
 			if cmd.ProcessState != nil && cmd.ProcessState.ExitCode() == 1 && n > 0 {
